@@ -50,6 +50,8 @@ claimed = {
              note="Goroutines are scheduled at synchronisation points only; GOMAXPROCS, the Go scheduler and the race detector are outside the claim. BLAKE3 is an assumed collision-free uninterpreted function."),
  "C01": dict(design="5/C01", text="Records laid out by an independent flat-file writer in the harness (LOCUS columns, keyword blocks with continuation lines, references, COMMENT, feature tables incl. features without qualifiers, two- and three-line locations, wrapped qualifier values, ORIGIN blocks) with locus-name characters, metadata words, qualifier-value bytes (printable ASCII without the double quote: '/', '=' and spaces included) and all ORIGIN letters symbolic: Parse from SSA (regexps through the symbolic matcher) returns the letters, every LOCUS field, re-joined keyword blocks, reference fields, features in order with key, location text and verbatim qualifier values; ParseMulti / ParseFlat give k results each equal to parsing the record alone.",
              note="Known finding C01-F7 (a wrapped value's continuation line beginning with '/') is scoped to the two qualifier clauses. Record structure is enumerated from a template family (see bounds); sizes of 10^5 bases / 40 features are outside the claim."),
+ "C03": dict(design="5/C03", text="Structured records (symbolic locus name, sequence letters, metadata words, qualifier values; references with REMARK, extra keyword blocks, cached or assembled locations, wrapped DEFINITION) are written by genbank.Build (wordwrap from SSA) and read back by Parse: every compared field is equal, ParseMulti accepts the output, lines stay within 80 columns, ORIGIN blocks are numbered 1/61/121 and '//' is last; two independent writes are byte-identical for EVERY iteration order of the qualifier and extra-keyword maps; Parse(Build(Parse(t))) = Parse(t) for records of the C01 template family.",
+             note="Compared fields: sequence, Locus, Definition/Accession/Version/Keywords/Source/Organism, references (Index assumed to be the position), Other, feature key / location structure / qualifier map. The 'independent reader' is the harness's column checks, not a second parser."),
 }
 
 na_reason = {}
